@@ -5,6 +5,7 @@ that the property's check reports a VIOLATION (exit 1).  Scratch copies live
 under $TMPDIR and are removed.  Usage: muttest.py [-j N] [ID ...]"""
 import glob, json, os, shutil, subprocess, sys, tempfile
 from concurrent.futures import ThreadPoolExecutor
+import queue
 ROOT = os.path.dirname(os.path.dirname(os.path.abspath(__file__)))
 args = sys.argv[1:]
 jobs = 6
@@ -47,7 +48,13 @@ def variants():
     return [v for v in out if not ids or v[0] in ids]
 def run(v):
     pid, name, patch = v
-    tmp = tempfile.mkdtemp(prefix="mut-")
+    # One scratch directory per worker slot, always at the same path: the Go build cache is keyed by the
+    # directory of the packages compiled, so a fresh random path per variant made every variant a cold
+    # build and grew the cache by gigabytes per run.
+    slot = SLOTS.get()
+    tmp = os.path.join(tempfile.gettempdir(), f"verif-mut-slot{slot}-{os.getuid()}")
+    shutil.rmtree(tmp, ignore_errors=True)
+    os.makedirs(tmp)
     try:
         src = os.path.join(tmp, "repo"); vd = os.path.join(tmp, "verif")
         subprocess.run(["rsync", "-a", "--exclude=.git", "/repo/", src + "/"], check=True)
@@ -68,7 +75,11 @@ def run(v):
         return (pid, name, st, " ;; ".join(f[:230] for f in fails[:3]))
     finally:
         shutil.rmtree(tmp, ignore_errors=True)
+        SLOTS.put(slot)
 vs = variants()
+SLOTS = queue.Queue()
+for _i in range(jobs):
+    SLOTS.put(_i)
 with ThreadPoolExecutor(jobs) as ex:
     res = list(ex.map(run, vs))
 bad = 0
